@@ -401,9 +401,9 @@ def shards(tier, seed):
         for i, ch in enumerate(_chunks(tsx, 2)):
             sh(f"ia-triples-S-{i}", b, container="ia", colls=ch)
         sh("ev-pairs-Sx", b, container="ev", colls=[c + ["S:x"] for c in _multisets(["A:x", "I:x", "cI:x", "A:y"], 2)])
-        sh("da-pairs", b, container="da", timing="delay", delay_hi=1, colls=_multisets(["A:x", "I:x", "cA:x", "Ay:x", "A:x@o"], 2))
+        sh("da-pairs", b, container="da", timing="delay", delay_hi=2, colls=_multisets(["A:x", "I:x", "D:x", "cA:x", "Ay:x", "A:x@o"], 2))
         for tmg in ("start", "end"):
-            sh(f"da-{tmg}-pairs-Sx", b, container="da", timing=tmg, colls=[c + ["S:x"] for c in _multisets(["A:x", "I:x", "I:x@o"], 2)])
+            sh(f"da-{tmg}-pairs-Sx", b, container="da", timing=tmg, colls=[c + ["S:x"] for c in _multisets(["A:x", "I:x", "cI:x", "A:y", "I:x@o"], 2)])
         sh("da-triples", b, container="da", timing="start", colls=t4)
         pbp = _multisets(["A:x", "I:x", "D:x", "cA:x", "Ay:x", "Ah:r", "O:o:1", "A:x@o"], 2)
         for i, ch in enumerate(_chunks([_second(c) for c in pbp], 2)):
